@@ -369,7 +369,8 @@ class SchemaGen:
                     self.feats.add("input.default")
         # interfaces
         hierarchy = "shape.iface_hierarchy" in self.dirty
-        iface_names = [names.type_name("If") for _ in range(rng.randrange(2, 4) if hierarchy else rng.randrange(0, 1 + scale))]
+        several = hierarchy or "frag.inline.on_interface" in self.dirty  # overlapping interfaces need at least two of them
+        iface_names = [names.type_name("If") for _ in range(rng.randrange(2, 4) if several else rng.randrange(0, 1 + scale))]
         for i, n in enumerate(iface_names):
             spec.interfaces[n] = ([], [])
         obj_names = [names.type_name("Ob") for _ in range(rng.randrange(2, 3 + 2 * scale))]
